@@ -59,6 +59,16 @@ def _futures_cancelled(m: str) -> Exception:
     return concurrent.futures.CancelledError(m)
 
 
+def _raised_while_handling_protocol_error(m: str) -> Exception:
+    try:
+        raise JsonRpcError(code=4040, message='not found (handled by the method itself)', data={'m': 'handled'})
+    except JsonRpcError:
+        try:
+            raise KeyError(m)
+        except KeyError as e:
+            return e
+
+
 def _library_validation_error(m: str) -> Exception:
     # application code re-using the library's own ValidationError inside a method body
     from pjrpc.server.validators import ValidationError
@@ -90,6 +100,9 @@ EXC_KINDS: Dict[str, Callable[[str], Exception]] = {
     'group': lambda m: ExceptionGroup(m, [ValueError(m), KeyError(m)]),
     'unicode': lambda m: UnicodeDecodeError('utf-8', b'\xff', 0, 1, m),
     'stopaiter': lambda m: StopAsyncIteration(m),
+    # an ordinary failure that happened while the method was dealing with a protocol error it had caught itself: the
+    # handled error is only the implicit context of the KeyError
+    'handled_proto_ctx': lambda m: _raised_while_handling_protocol_error(m),
 }
 EXC_CLASS_NAMES = ['ValueError', 'KeyError', 'TypeError', 'AssertionError', 'RuntimeError',
                    'ZzqSecretCustomError', 'IndexError', 'OSError', 'ZzqSecretBadReprError', 'TimeoutError',
